@@ -70,6 +70,43 @@ type obsRec struct {
 	Qual         []byte
 	Taxid        any
 	SciName      any
+	Feat         string // the feature table, when the reader was told to keep it
+}
+
+// featuresAlone: the feature table of every entry of a flat file, each entry parsed alone by the chunk
+// parser (nothing before it, nothing after it). nil when the text does not split into n entries.
+func featuresAlone(format string, text []byte, n int) []string {
+	var entries [][]byte
+	start := 0
+	for pos := 0; pos < len(text); {
+		end := bytes.IndexByte(text[pos:], '\n')
+		if end < 0 {
+			end = len(text)
+		} else {
+			end += pos + 1
+		}
+		if string(bytes.TrimRight(text[pos:end], "\r\n")) == "//" {
+			entries = append(entries, text[start:end])
+			start = end
+		}
+		pos = end
+	}
+	if len(entries) != n {
+		return nil
+	}
+	parser := obiformats.EmblChunkParser(true)
+	if format == "genbank" {
+		parser = obiformats.GenbankChunkParser(true)
+	}
+	out := make([]string, n)
+	for i, e := range entries {
+		sl, err := parser("alone", bytes.NewReader(e))
+		if err != nil || len(sl) != 1 {
+			return nil
+		}
+		out[i] = string(append([]byte{}, sl[0].Features()...))
+	}
+	return out
 }
 
 func observe(s *obiseq.BioSequence, format string) obsRec {
@@ -80,6 +117,7 @@ func observe(s *obiseq.BioSequence, format string) obsRec {
 	if format == "genbank" || format == "embl" {
 		o.Taxid, _ = s.GetAttribute("taxid")
 		o.SciName, _ = s.GetAttribute("scientific_name")
+		o.Feat = string(append([]byte{}, s.Features()...))
 	}
 	return o
 }
@@ -323,10 +361,12 @@ func runReader(c *core.Ctx) {
 		opts = append(opts, obiformats.OptionsFastSeqHeaderParser(obiformats.ParseFastSeqJsonHeader))
 	}
 	// flat files read with their feature table kept (an API option): identifier, definition, sequence
-	// and taxon are what they are without it
+	// and taxon are what they are without it, and the table of an entry is the one it has when parsed alone
+	withFeat := false
 	if (format == "embl" || format == "genbank") && (c.Idx/4)%2 == 1 {
 		opts = append(opts, obiformats.WithFeatureTable(true))
 		c.Count("flat_file_reads_with_feature_table", 1)
+		withFeat = true
 	}
 	// the reader told not to keep the quality scores (what obiuniq asks for): no record carries any,
 	// wherever it lies in the file and however the file ends
@@ -432,7 +472,9 @@ func runReader(c *core.Ctx) {
 				return
 			}
 		}
-		compare(c, "reader layer, full-file batch", fc, obs, det)
+		if compare(c, "reader layer, full-file batch", fc, obs, det) && withFeat {
+			compareFeatures(c, fc, obs, det)
+		}
 		return
 	}
 	if len(orders) >= 2 {
@@ -473,7 +515,38 @@ func runReader(c *core.Ctx) {
 			return
 		}
 	}
-	compare(c, "reader layer", fc, obs, det)
+	if compare(c, "reader layer", fc, obs, det) && withFeat {
+		compareFeatures(c, fc, obs, det)
+	}
+}
+
+func compareFeatures(c *core.Ctx, fc fileCase, obs []obsRec, det map[string]any) {
+	alone := featuresAlone(fc.format, fc.text, len(fc.recs))
+	if alone == nil || len(obs) != len(alone) {
+		c.Count("feature_tables_not_compared", 1)
+		return
+	}
+	nonEmpty := 0
+	for i := range obs {
+		if alone[i] != "" {
+			nonEmpty++
+		}
+		if obs[i].Feat != alone[i] {
+			det["record_index"], det["id"] = i, obs[i].ID
+			det["features_observed"], det["features_of_the_entry_parsed_alone"] = string(clipB([]byte(obs[i].Feat))), string(clipB([]byte(alone[i])))
+			c.Violate("record:features:"+fc.format, "reader layer: the feature table of a delivered entry is not the table of that entry parsed alone", det)
+			return
+		}
+	}
+	c.Count("feature_tables_compared", len(obs))
+	c.Count("feature_tables_compared_non_empty", nonEmpty)
+}
+
+func clipB(b []byte) []byte {
+	if len(b) > 600 {
+		return b[:600]
+	}
+	return b
 }
 
 // ---------------------------------------------------------------- layer 3: end to end, transports
